@@ -31,6 +31,7 @@ func init() {
 			{"C04-R4a", "UpdateWatchedResource callbacks tolerate a nil record", c04r4a},
 			{"C04-R4b", "discarded error then dereference on the request layer", c04r4b},
 			{"C04-R4c", "a watch record that may be absent is dereferenced only after a nil test", c04r4c},
+			{"C04-R6", "every request of a real type reaches the classifier", c04r6},
 		},
 	})
 }
@@ -271,6 +272,8 @@ func c04r2(c *Ctx) {
 									return
 								}
 								if fa, ok := st.Addr.(*ssa.FieldAddr); ok && fieldVar(fa.X.Type(), fa.Field).Name() == "ResourceNames" {
+									c.Check(name+":a rejection does not rewrite the recorded subscription", j.Pos(), !underEdges(fn, ins.Block(), errEdgesNonNil),
+										"the recorded ResourceNames is rewritten on the NACK path: a NACK rejects what was sent, it is not a subscription change. Names first seen on a NACK become the baseline for `added = requested - recorded`, so the following request that really asks for them finds nothing added and is not answered")
 									c.Check(name+":subscription record rewritten only for a current request", j.Pos(), underEdges(lit, j.Block(), own),
 										"the recorded ResourceNames is overwritten inside the update callback before the request nonce was compared with the nonce last sent: a stale request (raced by a push) replaces the record, the following ACK then shows no added names, and the added resource is never sent")
 								}
@@ -280,6 +283,8 @@ func c04r2(c *Ctx) {
 				}
 			})
 			for _, site := range sites {
+				c.Check(name+":a rejection does not rewrite the recorded subscription", site.Pos(), !underEdges(fn, site.Block(), errEdgesNonNil),
+					"the recorded ResourceNames is rewritten on the NACK path: a NACK rejects what was sent, it is not a subscription change. Names first seen on a NACK become the baseline for `added = requested - recorded`, so the following request that really asks for them finds nothing added and is not answered")
 				c.Check(name+":subscription record rewritten only for a current request", site.Pos(), underEdges(fn, site.Block(), allowed),
 					"the recorded ResourceNames can be overwritten on a path that has not established that the request is a first request or carries the nonce last sent: a stale request (raced by a push) replaces the record, the following ACK then shows no added names, and the added resource is never sent")
 			}
@@ -899,4 +904,71 @@ func nonceMatchEdges(f *ssa.Function) []Edge {
 		out = append(out, Edge{i.Block(), idx})
 	}
 	return out
+}
+
+
+// C04-R6: the classifiers (ShouldRespond / shouldRespondDelta) are the only place a request is applied to the recorded
+// subscription. In processRequest / processDeltaRequest every path to a return passes the classifier call, except the
+// early exits decided by the TYPE of the request alone (health check, debug types: tests of req.TypeUrl). An early
+// return decided by other request content (e.g. "this delta request only unsubscribes, nothing to answer") drops the
+// request's effect on the record: later pushes still send the dropped names and a re-subscription is never answered.
+func c04r6(c *Ctx) {
+	p := c.P
+	for _, spec := range []struct{ fn, classifier string }{{"processRequest", "ShouldRespond"}, {"processDeltaRequest", "shouldRespondDelta"}} {
+		fn := p.Func(pkgXds, "DiscoveryServer", spec.fn)
+		isClassifier := func(ins ssa.Instruction) bool {
+			o := calleeObj(ins)
+			return o != nil && o.Name() == spec.classifier
+		}
+		n := 0
+		eachInstr(fn, func(ins ssa.Instruction) {
+			if isClassifier(ins) {
+				n++
+			}
+		})
+		c.Check(spec.fn+" calls the classifier", fn.Pos(), n == 1, "expected one call of "+spec.classifier)
+		// edges decided by the type URL alone
+		var typeEdges []Edge
+		isTypeURL := func(v ssa.Value) bool {
+			fv := fieldOfLoad(v)
+			if fv != nil && fv.Name() == "TypeUrl" {
+				return true
+			}
+			if call, ok := v.(*ssa.Call); ok && len(call.Call.Args) > 0 {
+				if o := calleeObj(call); o != nil && o.Name() == "GetTypeUrl" {
+					return true
+				}
+			}
+			return false
+		}
+		for _, i := range allIfs(fn) {
+			v, neg := stripNot(i.Cond)
+			tIdx := 0
+			if neg {
+				tIdx = 1
+			}
+			switch x := v.(type) {
+			case *ssa.BinOp:
+				if (x.Op == token.EQL || x.Op == token.NEQ) && (isTypeURL(x.X) || isTypeURL(x.Y)) {
+					idx := tIdx
+					if x.Op == token.NEQ {
+						idx = 1 - tIdx
+					}
+					typeEdges = append(typeEdges, Edge{i.Block(), idx})
+				}
+			case *ssa.Call:
+				if o := calleeObj(x); o != nil && o.Pkg() != nil && o.Pkg().Path() == "strings" && len(x.Call.Args) > 0 && isTypeURL(x.Call.Args[0]) {
+					typeEdges = append(typeEdges, Edge{i.Block(), tIdx})
+				}
+			}
+		}
+		bad, found := pathAvoidingE(fn.Blocks[0], nil, isClassifier, isReturn, typeEdges, nil)
+		pos := fn.Pos()
+		if bad != nil {
+			pos = bad.Pos()
+		}
+		c.Check(spec.fn+": every request of a real type reaches "+spec.classifier, pos, !found,
+			spec.fn+" can return before the request was classified on a path that is not decided by the request's type URL alone: the request is never applied to the recorded subscription (e.g. an unsubscribe is lost: the dropped names keep being pushed and a later re-subscription is treated as already known and not answered)")
+	}
+	c.Floor(4)
 }
